@@ -35,6 +35,11 @@ func (p *PointProj) scalarMulGLV(p1 *PointProj, scalar *big.Int) *PointProj {
 
 	initOnce.Do(initCurveParams)
 
+	// phi is not defined at the identity (it maps (0:1:1) to (0:0:0))
+	if p1.IsZero() {
+		return p.setInfinity()
+	}
+
 	var table [15]PointProj
 	var res PointProj
 	var k1, k2 fr.Element
@@ -135,6 +140,11 @@ func (p *PointExtended) phi(p1 *PointExtended) *PointExtended {
 func (p *PointExtended) scalarMulGLV(p1 *PointExtended, scalar *big.Int) *PointExtended {
 
 	initOnce.Do(initCurveParams)
+
+	// phi is not defined at the identity (it maps (0:1:1) to (0:0:0))
+	if p1.IsZero() {
+		return p.setInfinity()
+	}
 
 	var table [15]PointExtended
 	var res PointExtended
